@@ -90,7 +90,7 @@ NoCrash == [gate |-> "", occ |-> 0, when |-> ""]
 NoPlan == [faults |-> <<>>, crash |-> NoCrash]
 NdInit == [up |-> TRUE, epoch |-> 1, mem |-> <<>>, reg |-> {}, disk |-> <<>>, timers |-> {}, notif |-> {}, wconf |-> {}, wcsv |-> {},
            senders |-> {}, spentout |-> {}, suspfile |-> FALSE, sentn |-> <<>>, nsteps |-> 0, nfaults |-> 0, ncrashes |-> 0,
-           nswaps |-> 0, opens |-> <<>>, q |-> <<>>, peerinv |-> <<>>, keyn |-> 0, ptx |-> 0, ptxs |-> <<>>, ver |-> "current", unrecovered |-> FALSE, tipadd |-> 0, lastplan |-> NoPlan, phase |-> "idle", poll |-> FALSE,
+           nswaps |-> 0, opens |-> <<>>, q |-> <<>>, peerinv |-> <<>>, keyn |-> 0, ptx |-> 0, ptxs |-> <<>>, ver |-> "current", unrecovered |-> FALSE, tipadd |-> 0, lastplan |-> NoPlan, lastraw |-> <<>>, phase |-> "idle", poll |-> FALSE,
            occ |-> <<>>, plan |-> NoPlan, res |-> "ok", recover |-> FALSE, nrestarts |-> 0, a |-> ""]
 
 Ctx(n, plan) == [nd |-> n, evs |-> <<>>, occ |-> <<>>, plan |-> plan, crashed |-> FALSE, go |-> "", sid |-> "none", out |-> "", res |-> "ok", done |-> FALSE]
@@ -600,7 +600,7 @@ OpenShapes == {[BlankMsg EXCEPT !.kind = "opening_tx_broadcasted", !.v = "good"]
 \* messages the counterparty of swap s may send (honest and dishonest variants)
 PeerMsgs(n, s) ==
   LET r == RoleOf(n, s)  M(m) == [m EXCEPT !.sid = s] IN
-  (IF r = "out_sender" THEN {M([BlankMsg EXCEPT !.kind = "swap_out_agreement", !.premium = p, !.v = v]) : p \in (IF cf.neglimit THEN {"small", "over", "huge", "neg"} ELSE {"small", "over"}), v \in {"", "fee_high"}} ELSE {})
+  (IF r = "out_sender" THEN {M([BlankMsg EXCEPT !.kind = "swap_out_agreement", !.premium = p, !.v = v]) : p \in (IF cf.neglimit THEN {"small", "over", "huge", "neg"} ELSE {"small", "over", "zero"}), v \in {"", "fee_high"}} ELSE {})
   \cup (IF r = "in_sender" THEN {M([BlankMsg EXCEPT !.kind = "swap_in_agreement", !.premium = p]) : p \in (IF cf.neglimit THEN {"small", "over", "huge", "neg"} ELSE {"small", "over"})} ELSE {})
   \cup (IF r \in Takers THEN {M(m) : m \in OpenShapes} ELSE {})
   \cup (IF r \in Makers THEN {M([BlankMsg EXCEPT !.kind = "coop_close", !.v = v]) : v \in {"", "wrongkey", "malformed"}} ELSE {})
@@ -624,11 +624,12 @@ AdvNewReqs ==
   \cup {[BlankMsg EXCEPT !.kind = k, !.pubkey = "short"] : k \in (INITS \cap ReqKinds)}
   \cup {[BlankMsg EXCEPT !.kind = k, !.asset = "other"] : k \in (INITS \cap ReqKinds)}
   \cup {[BlankMsg EXCEPT !.kind = k, !.amt = "belowmin"] : k \in (INITS \cap ReqKinds)}
+  \cup {[BlankMsg EXCEPT !.kind = k, !.amt = "min"] : k \in (INITS \cap ReqKinds)}
   \cup {[BlankMsg EXCEPT !.kind = k, !.from = "third"] : k \in (INITS \cap ReqKinds)}
 MsgMenu(n) ==
   UNION {PeerMsgs(n, s) : s \in Labels(n)}
   \cup (IF n.nswaps < MAXSWAPS THEN NewReqs ELSE {})
-  \cup (IF ADVERSARY THEN UNION {AdvMsgs(n, s) : s \in Labels(n)} \cup (IF n.nswaps < MAXSWAPS THEN AdvNewReqs ELSE {}) \cup RawMsgs ELSE {})
+  \cup (IF ADVERSARY THEN UNION {AdvMsgs(n, s) : s \in Labels(n)} \cup (IF n.nswaps < MAXSWAPS THEN AdvNewReqs ELSE {}) \cup (IF cf.junk THEN RawMsgs ELSE {}) ELSE {})
 
 FaultGates == {"msg.send", "chain.height", "ln.payclaim", "ln.payfee", "wallet.open", "wallet.spend.preimage", "wallet.spend.csv",
                "wallet.spend.coop", "ln.invoice", "validate", "persist", "ln.decode", "ln.probe", "wallet.fee"}
@@ -662,7 +663,8 @@ Commit(x, pre, a, plan, sch) ==
   LET y == Settle(x)
       f == Fold(o, viol, pre \o y.evs)
   IN /\ o' = f.o /\ viol' = f.v
-     /\ nd' = [y.nd EXCEPT !.phase = "drain", !.lastplan = NoPlan, !.occ = y.occ, !.plan = plan, !.res = y.res, !.a = a, !.nsteps = @ + 1,
+     /\ nd' = [y.nd EXCEPT !.phase = "drain", !.lastplan = NoPlan, !.lastraw = IF a = "msg" /\ "msg" \in DOMAIN sch /\ sch.msg.kind = "raw" THEN <<sch.msg.raw_type, sch.msg.raw>> ELSE <<>>,
+                           !.occ = y.occ, !.plan = plan, !.res = y.res, !.a = a, !.nsteps = @ + 1,
                            !.nfaults = @ + (IF plan.faults # <<>> THEN 1 ELSE 0), !.ncrashes = @ + (IF plan.crash.gate # "" THEN 1 ELSE 0)]
      /\ sched' = Append(sched, sch) /\ UNCHANGED cf
 
